@@ -73,6 +73,13 @@ Proof.
   exact (proj2 (step_xs x4 (mod_u64 _))).
 Qed.
 
+(* Everything below holds for ANY translated program that binds these names to these function terms: the
+   compactindexsized package, and the deprecated packages wherever their source is textually the same function. *)
+Section Generic.
+Variable prog : program.
+Hypothesis prog_hashUint64 : plookup "hashUint64" prog = Some fn_hashUint64.
+Hypothesis prog_Header_BucketHash : plookup "Header.BucketHash" prog = Some fn_Header_BucketHash.
+
 (* ------------------------------------------------------------------ hashUint64 *)
 (* the body of hashUint64 run on its parameter environment (what a call does) *)
 Lemma hashUint64_body ext fuel x : u64 x ->
@@ -213,3 +220,4 @@ Proof.
     exists k. split; [exact Hk2|]. split; [reflexivity|].
     intros Hk. rewrite (reject_rounds 64 (sum64 key) r k Hk1 Hk2 Hk). reflexivity.
 Qed.
+End Generic.
